@@ -27,6 +27,7 @@ def mk_engine(C, N):
     *contents* (length + bytes), shared by every call site, and refined against the native validator whenever a model is
     concretised.  What remains is exactly the URI code's own slicing / indexing / encoding logic."""
     E = C.fresh_engine(KEYS, N=N)
+    E.concrete_find = os.environ.get('VERIF_C11_CONCRETE_FIND') is not None   # optional: one path per separator position
     E.id_ok = {}
 
     def content_pred(kind, s):
